@@ -302,6 +302,8 @@ class FFCDHKey:
             raise ValueError(f"Failed to unpack {cls.__name__} as magic identifier is invalid")
 
         key_length = int.from_bytes(view[4:8], byteorder="little")
+        if len(view) < 8 + key_length * 3:
+            raise ValueError(f"Failed to unpack {cls.__name__} as the data is too short for a key length of {key_length}")
 
         field_order = view[8 : 8 + key_length].tobytes()
         view = view[8 + key_length :]
